@@ -1354,6 +1354,39 @@ func timeout2(time int) time.Duration { return 0 }
 		}
 		add(caseT{Family: "twins", Plugin: pl, What: "a named type with methods and its unnamed twin side by side", Call: fn, Names: []string{fn, "L", "M", "S"}, Unsupp: true}, map[string]string{"u.go": src})
 	}
+	// map sets whose value type is a NAMED empty struct / an alias of struct{} / struct{} itself (control), for the plugins that
+	// treat map[K]struct{} as a set
+	setDecl := "type present struct{}\n\ntype Mark = struct{}\n\ntype NS map[string]present\n\ntype AS map[string]Mark\n\ntype NU map[string]struct{}\n\nvar (\n\ta, b   map[string]present\n\tc, d   map[string]Mark\n\te, f   map[string]struct{}\n\tna, nb NS\n\taa, ab AS\n\tua, ub NU\n\tpi     map[int]present\n\tpp     map[*int]present\n)\n"
+	for _, pl := range []string{"union", "intersect", "keys", "set", "equal", "compare", "hash", "deepcopy", "clone", "gostring", "sort", "unique", "contains", "min"} {
+		for _, v := range []struct{ what, x, y string }{
+			{"map to a named empty struct", "a", "b"}, {"map to an alias of struct{}", "c", "d"}, {"map to struct{} (control)", "e", "f"},
+			{"named map to a named empty struct", "na", "nb"}, {"named map to an alias of struct{}", "aa", "ab"}, {"named map to struct{}", "ua", "ub"},
+			{"map from int to a named empty struct", "pi", "pi"}, {"map from a pointer to a named empty struct", "pp", "pp"},
+			{"a named-struct set and a plain set", "a", "e"},
+		} {
+			fn := prefixes[pl] + "Set"
+			var call string
+			switch pl {
+			case "union", "intersect", "equal", "compare", "deepcopy":
+				call = fn + "(" + v.x + ", " + v.y + ")"
+			case "contains", "min":
+				call = fn + "(" + v.x + ", present{})"
+			case "sort", "unique", "set":
+				call = fn + "(" + prefixes["keys"] + "Of(" + v.x + "))"
+			default:
+				call = fn + "(" + v.x + ")"
+			}
+			src := "package PKGDIR\n\n" + setDecl + "\nfunc Use() {\n\t" + call + "\n}\n"
+			add(caseT{Family: "diagnostics", Plugin: pl, What: v.what + ": " + call, Call: fn,
+				Names: []string{fn, "present", "Mark", "NS", "AS", "NU", "struct{}", "map["}, Unsupp: true}, map[string]string{"u.go": src})
+		}
+	}
+	// … and used: the results of union / intersect over such sets must be assignable back
+	for _, pl := range []string{"union", "intersect"} {
+		fn := prefixes[pl] + "SetUse"
+		src := "package PKGDIR\n\n" + setDecl + "\nfunc Use() {\n\te = " + fn + "(e, f)\n\tvar r map[string]struct{} = " + fn + "(ua, ub)\n\t_ = r\n}\n"
+		add(caseT{Family: "diagnostics", Plugin: pl, What: "plain and named struct{} sets, results used", Call: fn, Names: []string{fn, "NU", "struct{}"}, Unsupp: true}, map[string]string{"u.go": src})
+	}
 	// the command line
 	okPkg := "package PKGDIR\n\nfunc Eq(a, b []int) bool { return deriveEqual(a, b) }\n"
 	cl := func(what string, pre, post []string, names ...string) {
